@@ -192,3 +192,8 @@ def split_responses(x):
         if s[0] == BAD:
             break
     return out
+
+
+def tokb(t):
+    r = take(t + b" ")
+    return r is not None and r[0] == t and len(t) > 0
